@@ -25,12 +25,12 @@ def gen_banner(rng):
     """Well-formed identification string -> bytes (including CR LF and optional trailing bytes)."""
     proto = rng.choice([b"2.0", b"1.99"])
     vext = bytes(rng.choice(b"0123456789.") for _ in range(rng.choice([0, 0, 0, 1, 3])))
-    soft = _no_crlf(_fill(rng, rng.randrange(0, 40), (0x20, 0x0A)))
+    soft = _no_crlf(_fill(rng, rng.choice([rng.randrange(0, 40), rng.randrange(0, 40), rng.randrange(40, 250)]), (0x20, 0x0A)))
     if rng.random() < 0.15:
         soft += b"\r" * rng.randrange(1, 4)          # software ending in lone CR(s)
     out = b"SSH-" + proto + vext + b"-" + soft
     if rng.random() < 0.5:
-        com = _no_crlf(_fill(rng, rng.randrange(0, 40), (0x0A,)))
+        com = _no_crlf(_fill(rng, rng.choice([rng.randrange(0, 40), rng.randrange(40, 250)]), (0x0A,)))
         if rng.random() < 0.15:
             com += b"\r" * rng.randrange(1, 4)
         out += b" " + com
